@@ -9,6 +9,7 @@ pub mod c03;
 pub mod c05;
 pub mod c09e;
 pub mod c10e;
+pub mod c16e;
 pub mod c18;
 pub mod c19e;
 pub mod diffcommon;
@@ -20,6 +21,7 @@ pub fn by_id(id: &str) -> Option<Arc<dyn DynMonitor>> {
         "C03" => Arc::new(Erased(c03::C03)),
         "C05" => Arc::new(Erased(c05::C05)),
         "C18" => Arc::new(Erased(c18::C18)),
+        "C16" => Arc::new(Erased(c16e::C16e)),
         "C09" => Arc::new(Erased(c09e::C09e)),
         "C19" => Arc::new(Erased(c19e::C19e)),
         "C10" => Arc::new(Erased(c10e::C10e)),
